@@ -108,8 +108,8 @@ func (w *Proxy) h2ReplyBuilder(u *peers.H2Upstream, r *peers.ReqRec, up *peers.U
 	for len(body) < len(r.Token)+n {
 		body = append(body, byte('A'+(len(body)*7+len(r.Token))%26))
 	}
-	if n < 0 || m.Status == 204 {
-		body = nil // (a 204 response has no body)
+	if n < 0 || m.Status == 204 || r.Method == "HEAD" {
+		body = nil // (a 204 response and the answer to a HEAD request have no body)
 	}
 	m.Body = body
 	return m
@@ -155,6 +155,11 @@ func (w *Proxy) setupH2Client(ci int, reqIdxP *int) {
 		m.Target = pickFrom(ch, "work", "target18", []string{"/", "/a/b", "/a?x=1&y=2", "/A/B/c.html?q=%E4%BD%A0", "/long/" + strings.Repeat("p", 300)})
 		r.Method, r.Target = m.Method, m.Target
 		svc := fmt.Sprintf("svc%d", k%3)
+		if p.LocalErr && ch.Chance("work", "localerr", 1, 5) {
+			svc = pickFrom(ch, "work", "localerrkind", []string{"none", "empty"})
+			r.Extra["local_err"] = svc
+			s.Fault("w:local_error_reply_" + svc)
+		}
 		r.Extra["svc"] = svc
 		m.Headers = []peers.KV{{K: "x-tok", V: tok}, {K: "service", V: svc}, {K: "user-agent", V: "verif/2"}, {K: "content-type", V: "application/x-verif"}}
 		// header lists: sizes, repeated names, never-indexed fields, values that are re-used (dynamic table hits)
